@@ -55,8 +55,17 @@ def run(ck: Check) -> None:
             continue
         auth = [k.hex for k in ks] + [gen.key(12).hex]
         rng.shuffle(auth)
+        if i % 3 == 0:
+            # the payload is edited and signed again by the same keys (a new version of the same document): the fresh signatures must verify
+            try:
+                env["signed"] = {"edited": i, "was": env["signed"]}
+                for k in ks:
+                    impl.signing.sign_signable(env, impl.common.PrivateKey.from_bytes(k.seed))
+            except Exception as e:
+                ck.violation("library signing failed", {"error": repr(e)}, "own-sign-failed")
+                continue
         for t in {1, len(ks)}:
-            own.append(Case("vsignable", [env, auth, t, False], tag="own-signed", group=20000 + i, meta={"signers": len(ks), "thr": t}))
+            own.append(Case("vsignable", [env, auth, t, False], tag="own-signed" + ("-after-edit" if i % 3 == 0 else ""), group=20000 + i, meta={"signers": len(ks), "thr": t}))
     res = ck.run_cases(own, "corr:verify_signable/outcome-class")
     for r in res:
         ck.oracle_checks += 1
